@@ -13,13 +13,11 @@ import (
 // and by the Go scheduler, and a goroutine waiting for a sync.Mutex is not a durable block for testing/synctest.
 // Under the verif tag the external simulator (/verif) gets ONE of the legal schedules of that program, always the
 // same: subscribers in the order of their ids, each check running to its end before the next one starts (no check
-// ever waits for another one). Tag off: map order and errgroup goroutines as before.
+// ever waits for another one). Tag off: map order and concurrent errgroup goroutines as before.
 func verifSubscriberOrder(ids []string) []string {
 	sort.Strings(ids)
 	return ids
 }
 
-func verifGo(g *errgroup.Group, f func() error) {
-	err := f()
-	g.Go(func() error { return err })
-}
+// verifOneAtATime: errgroup.Go then waits (on a channel) until the previous subscriber's check has returned.
+func verifOneAtATime(g *errgroup.Group) { g.SetLimit(1) }
